@@ -21,6 +21,8 @@ KW = {"new_version": NEW_V, "old_version": OLD_V, "NEW_VERSION": NEW_V, "OLD_VER
 
 def gen_message(rng, source, real=False, allow_newline=True):
     n = rng.randint(1, 7)
+    if rng.random() < 0.06:
+        n = rng.randint(20, 40)        # release notes in the message: many words, many shorthands
     parts = []
     for _ in range(n):
         r = rng.random()
@@ -28,9 +30,9 @@ def gen_message(rng, source, real=False, allow_newline=True):
             parts.append(rng.choice(WORDS))
         elif r < 0.5:
             parts.append(rng.choice(PLACEHOLDERS))
-        elif r < 0.6:
+        elif r < 0.6 or (n >= 20 and r < 0.8):
             # the OLD/NEW shorthand is documented for the command line only; in a config template these are plain words
-            parts.append(rng.choice(["OLD", "NEW", "NEWS", "OLDER"]))
+            parts.append(rng.choice(["OLD", "NEW", "NEWS", "OLDER"] if n < 20 else ["OLD", "NEW", "OLD", "NEW", "NEWS"]))
         elif r < 0.65 and allow_newline:
             parts.append("\n")
         else:
